@@ -72,14 +72,29 @@ func hx(b []byte) string {
 
 var zero8 = make([]byte, 8)
 
-func renderPack(b []byte, class string, ps, pl int, view []byte) string {
+// win: an earlier packet window (relay: the receive window) whose bytes depend on the cipher; the
+// compared prefix/suffix hashes stay outside both windows.
+type win struct{ s, e int }
+
+func (w *win) arg() string {
+	if w == nil {
+		return ""
+	}
+	return fmt.Sprintf(" ws=%d we=%d", w.s, w.e)
+}
+
+func renderPack(b []byte, class string, ps, pl int, view []byte, w *win) string {
 	if class != "ok" {
 		if len(class) > 4 && class[:4] == "err:" {
 			return "err " + class[4:]
 		}
 		return class
 	}
-	return fmt.Sprintf("ok %d %d %s %s %s", ps, pl, fnv(view), fnv(b[:ps]), fnv(b[ps+pl:]))
+	lo, hi := ps, ps+pl
+	if w != nil {
+		lo, hi = min(lo, w.s), max(hi, w.e)
+	}
+	return fmt.Sprintf("ok %d %d %s %s %s", ps, pl, fnv(view), fnv(b[:lo]), fnv(b[hi:]))
 }
 
 func classify(pan any, err error, b []byte, ps, pl int) string {
@@ -97,7 +112,7 @@ func classify(pan any, err error, b []byte, ps, pl int) string {
 }
 
 // clientPack runs w's client packer on b.
-func (s *script) clientPack(w *world, b []byte, addr string, start, n int, pol string) packRes {
+func (s *script) clientPack(w *world, b []byte, addr string, start, n int, pol string, rw *win) packRes {
 	ca, err := connAddr(addr)
 	if err != nil {
 		panic(err)
@@ -125,7 +140,7 @@ func (s *script) clientPack(w *world, b []byte, addr string, start, n int, pol s
 			}
 		}
 		line = fmt.Sprintf("pack ssc eih=%s mps=%d pol=%s addr=%s start=%d len=%d rand=%d ts=%s sid=%s pid=%s",
-			hx(w.hashes), w.cMax, pol, addr, start, n, rnd, hx(ts), hx(sid), hx(pid))
+			hx(w.hashes), w.cMax, w.polC, addr, start, n, rnd, hx(ts), hx(sid), hx(pid))
 	case "none":
 		line = fmt.Sprintf("pack nonec limit=%d addr=%s start=%d len=%d", w.cMax, addr, start, n)
 	case "socks5":
@@ -136,12 +151,12 @@ func (s *script) clientPack(w *world, b []byte, addr string, start, n int, pol s
 	if r.ok() && view == nil {
 		view = b[r.ps : r.ps+r.pl]
 	}
-	s.add(line, renderPack(b, r.class, r.ps, r.pl, view))
+	s.add(line+rw.arg(), renderPack(b, r.class, r.ps, r.pl, view, rw))
 	return r
 }
 
 // serverPack runs w's server packer on b (the packer exists once the server has unpacked a packet).
-func (s *script) serverPack(w *world, b []byte, src string, start, n, maxPacketLen int, pol string, only bool) packRes {
+func (s *script) serverPack(w *world, b []byte, src string, start, n, maxPacketLen int, pol string, only bool, rw *win) packRes {
 	ap, err := addrPort(src)
 	if err != nil {
 		panic(err)
@@ -169,14 +184,14 @@ func (s *script) serverPack(w *world, b []byte, src string, start, n, maxPacketL
 			}
 		}
 		line = fmt.Sprintf("pack sss pol=%s src=%s start=%d len=%d max=%d rand=%d ts=%s ssid=%s spid=%s csid=%s",
-			pol, src, start, n, maxPacketLen, rnd, hx(ts), hx(ssid), hx(spid), hx(csid))
+			w.polS, src, start, n, maxPacketLen, rnd, hx(ts), hx(ssid), hx(spid), hx(csid))
 	case "none":
 		line = fmt.Sprintf("pack nones src=%s start=%d len=%d max=%d", src, start, n, maxPacketLen)
 	case "socks5":
 		line = fmt.Sprintf("pack socks5s src=%s start=%d len=%d max=%d", src, start, n, maxPacketLen)
 	case "direct":
 		o := 0
-		if only {
+		if w.only {
 			o = 1
 		}
 		line = fmt.Sprintf("pack directs target=%s only=%d src=%s start=%d len=%d max=%d", showConnAddr(w.tunnel), o, src, start, n, maxPacketLen)
@@ -184,7 +199,7 @@ func (s *script) serverPack(w *world, b []byte, src string, start, n, maxPacketL
 	if r.ok() && view == nil {
 		view = b[r.ps : r.ps+r.pl]
 	}
-	s.add(line, renderPack(b, r.class, r.ps, r.pl, view))
+	s.add(line+rw.arg(), renderPack(b, r.class, r.ps, r.pl, view, rw))
 	return r
 }
 
@@ -196,7 +211,7 @@ type unpackRes struct {
 
 func (r unpackRes) ok() bool { return r.class == "ok" }
 
-func renderUnpack(b []byte, r unpackRes, wps, wpl int) string {
+func renderUnpack(b []byte, r unpackRes, wps, wpl int, w *win) string {
 	if r.class != "ok" {
 		if len(r.class) > 4 && r.class[:4] == "err:" {
 			return "err " + r.class[4:]
@@ -207,12 +222,16 @@ func renderUnpack(b []byte, r unpackRes, wps, wpl int) string {
 	if r.ps >= 0 && r.pl >= 0 && r.ps+r.pl <= len(b) {
 		pay = b[r.ps : r.ps+r.pl]
 	}
-	return fmt.Sprintf("ok %s %d %d %s %s %s", r.addr, r.ps, r.pl, fnv(pay), fnv(b[:wps]), fnv(b[wps+wpl:]))
+	lo, hi := wps, wps+wpl
+	if w != nil {
+		lo, hi = min(lo, w.s), max(hi, w.e)
+	}
+	return fmt.Sprintf("ok %s %d %d %s %s %s", r.addr, r.ps, r.pl, fnv(pay), fnv(b[:lo]), fnv(b[hi:]))
 }
 
 // serverUnpack runs the server side of w on the packet b[ps:ps+pl] the way the relay services do.
 // ts = the timestamp inside the packet (the model validates against it; the code uses time.Now()).
-func (s *script) serverUnpack(w *world, b []byte, from netip.AddrPort, ps, pl int, ts []byte) unpackRes {
+func (s *script) serverUnpack(w *world, b []byte, from netip.AddrPort, ps, pl int, ts []byte, rw *win) unpackRes {
 	var r unpackRes
 	var a conn.Addr
 	var e error
@@ -272,12 +291,12 @@ func (s *script) serverUnpack(w *world, b []byte, from netip.AddrPort, ps, pl in
 	case "direct":
 		line = fmt.Sprintf("unpack directs target=%s start=%d len=%d", showConnAddr(w.tunnel), ps, pl)
 	}
-	s.add(line, renderUnpack(b, r, ps, pl))
+	s.add(line+rw.arg(), renderUnpack(b, r, ps, pl, rw))
 	return r
 }
 
 // clientUnpack runs w's client unpacker on the packet b[ps:ps+pl] received from `from`.
-func (s *script) clientUnpack(w *world, b []byte, from netip.AddrPort, ps, pl int, ts, csid []byte) unpackRes {
+func (s *script) clientUnpack(w *world, b []byte, from netip.AddrPort, ps, pl int, ts, csid []byte, rw *win) unpackRes {
 	var r unpackRes
 	var ap netip.AddrPort
 	var e error
@@ -306,7 +325,7 @@ func (s *script) clientUnpack(w *world, b []byte, from netip.AddrPort, ps, pl in
 	case "direct":
 		line = fmt.Sprintf("unpack directc from=%s start=%d len=%d", showAddrPort(from), ps, pl)
 	}
-	s.add(line, renderUnpack(b, r, ps, pl))
+	s.add(line+rw.arg(), renderUnpack(b, r, ps, pl, rw))
 	return r
 }
 
